@@ -66,6 +66,9 @@ CLAIMED["C11"] = ("model_checking", "explicit enumeration of all operation histo
 CLAIMED["C19"] = ("exploration", "crossed enumeration of split/break calls (network variant x every pipe x 5 fractions x end x copy x mode) and of skeletonize calls (8 networks x all diameter assignments x thresholds x operation switches x max_cycles x exclusion lists x engine); structural oracles plus a before/after simulation for splits",
     "every call of the crossed alphabets runs on the real morph functions; lengths, fraction, connectivity, elevation, polyline coordinates, vertex distribution, inherited attributes, no check valve, untouched input (return_copy) and untouched other elements are checked for split/break, unchanged heads/flows by simulation for splits; survival of tanks/reservoirs/pumps/valves/controlled elements, conservation of total demand at every pattern instant and the partition property of the map for skeletonize",
     "networks of 5-6 nodes; the hydraulic clause is applied to pipes without minor loss and 0 < fraction < 1")
+CLAIMED["C05"] = ("exploration", "exhaustive enumeration of single conditional controls and control pairs (thorough: all pairs and reduced triples) x 3 skeletons x 4 demand patterns x step sizes on a small-tank network; consistency invariant evaluated on every reported step with 'ALL' reporting",
+    "every control set of the alphabets is simulated; at every reported step every control whose condition is robustly true must find its target in the commanded status / setting (documented exemptions only), and a tank-level threshold whose control changes something must be met within two seconds of tank flow",
+    "thresholds are judged only when the reported value is more than 1e-4 away from them; non-converged runs are excluded and counted")
 NOT_YET = "check not built yet in this session (work in progress, see DESIGN.md section 4)"
 
 
